@@ -51,10 +51,13 @@ MANIFEST = {
     "Exhaustive over the call positions of the driven operations, not over all operations "
     "or all datasets.",
     "level_note": "Trusted: harness/monitors/iohook.py intercepts all I/O of the pure-Python "
-    "code under test; faults inside Pillow/nibabel and OS-level reordering after power loss "
-    "are out of reach.",
+    "code under test - cross-checked in every run at system-call level (strace) by a "
+    "completeness audit, and complemented by strace inject= faults around the real "
+    "volume-to-precomputed process; faults inside Pillow/nibabel and OS-level reordering "
+    "after power loss are out of reach.",
     "technique": "runtime fault injection and crash-point enumeration at interposed I/O "
-    "calls, with an outcome-based oracle and a fresh-reader audit",
+    "calls (Python level) and at system calls (strace inject=), with an outcome-based oracle "
+    "and a fresh-reader audit",
     "design_ref": "DESIGN.md section 2, C18",
 }
 REACH = ["FileAccessor.store_chunk", "FileAccessor.fetch_chunk", "FileAccessor.store_file",
